@@ -514,3 +514,9 @@ def _mk_bib(col):
 _hb = {}
 from pyvc.core import Unsupported     # noqa: E402
 CONTRACTS += [_mk_bib(c) for c in range(6)]
+
+
+# --- filtered BAM tables are written from the selected / compacted records (contracts proved for C04)
+from contracts import clone_for as _clone      # noqa: E402
+from contracts import c04 as _c04               # noqa: E402
+CONTRACTS += [_clone(_c04.bam_getitem, "C16"), _clone(_c04.bam_make_contiguous, "C16"), _clone(_c04.bam_make_contiguous_memo, "C16")]
